@@ -340,6 +340,20 @@ func (c *Config) Validate() (warns []error, errs []error) {
 			}
 		}
 	}
+	// Forced hosts are matched case-insensitively and the loader lower-cases the keys,
+	// so two keys that differ only in letter case cannot both be honoured.
+	forcedHostKeys := make(map[string]string, len(c.ForcedHosts))
+	for host := range c.ForcedHosts {
+		lower := strings.ToLower(host)
+		if other, ok := forcedHostKeys[lower]; ok {
+			if other > host {
+				other, host = host, other
+			}
+			e("Forced hosts %q and %q differ only in letter case", other, host)
+			continue
+		}
+		forcedHostKeys[lower] = host
+	}
 
 	if c.Compression.Level < -1 || c.Compression.Level > 9 {
 		e("Unsupported compression level %d: must be -1..9", c.Compression.Level)
